@@ -46,6 +46,11 @@ pub struct Case {
     pub conns: Vec<ConnPlan>,
     /// (connection index, closed by the server side, ms after its start)
     pub target: Option<(u8, bool, u16)>,
+    /// (n, hold ms): the n-th connection attempt reaching a server is kept waiting by the application for
+    /// longer than its idle timeout, so that accept() abandons it; the client's retransmitted Initial
+    /// is a new attempt
+    #[serde(default)]
+    pub stale: Vec<(u8, u16)>,
 }
 
 fn gen() -> XferGen {
@@ -65,8 +70,9 @@ pub fn arb_case() -> impl Strategy<Value = Case> {
         prop::option::weighted(0.6, 100u32..3000),
         // short connection IDs: retired values are issued again soon
         (prop::option::weighted(0.2, 1u8..=2), prop::option::weighted(0.2, 1u8..=2)),
+        prop_oneof![2 => Just(vec![]), 1 => prop::collection::vec((0u8..12, 2u16..80), 1..4)],
     )
-        .prop_map(|(net, n_ceps, n_seps, conns, target, life_c, life_s, (short_c, short_s))| {
+        .prop_map(|(net, n_ceps, n_seps, conns, target, life_c, life_s, (short_c, short_s), stale)| {
             let mut net = net;
             net.client_ep.cid_lifetime_ms = life_c;
             net.server_ep.cid_lifetime_ms = life_s;
@@ -75,7 +81,7 @@ pub fn arb_case() -> impl Strategy<Value = Case> {
                     ep.cid_len = l;
                 }
             }
-            normalize_case(Case { net, n_ceps, n_seps, conns, target })
+            normalize_case(Case { net, n_ceps, n_seps, conns, target, stale })
         })
 }
 
@@ -151,6 +157,7 @@ pub fn case(c: &Case) -> CaseOut {
     // the link-side amplification ledger (C07) is keyed by remote address and assumes one connection
     // per address; several connections share addresses here
     w.check_amp = false;
+    w.stale_accepts = c.stale.iter().map(|(n, h)| (*n as u32, *h as u32 * 1000)).collect();
     // additional endpoints (index 0 and 1 exist)
     let mut ceps = vec![CLIENT_EP];
     let mut seps = vec![SERVER_EP];
@@ -581,6 +588,9 @@ pub fn case(c: &Case) -> CaseOut {
         return CaseOut::fail("c09/bookkeeping/stale-cid-created-state", "probing retired connection IDs created endpoint state".to_string());
     }
     let mut labels = vec![];
+    if w.stale_abandoned > 0 {
+        labels.push("stale-accept-abandoned");
+    }
     if live_max >= 3 {
         labels.push("three-or-more-live");
     }
